@@ -577,7 +577,7 @@ def families_for(tier, rnd):
     if tier == "quick":
         return [("dag3", "dag", 3, 9, ("err", "panic"), False, 0), ("pregel3", "pregel", 3, 9, ("err",), False, 0),
                 ("wf3", "wf", 3, 9, ("err", "panic"), True, 0), ("pregel4", "pregel", 4, 14, (), False, 0),
-                ("dag4", "dag", 4, 14, (), False, 0), ("wf4", "wf", 4, 14, (), True, 0),
+                ("dag4", "dag", 4, 7, (), False, 0), ("wf4", "wf", 4, 7, (), True, 0),
                 ("dag3b", "dag", 3, 5, (), False, 1), ("wf3b", "wf", 3, 5, (), True, 1),
                 ("dag3r", "dag", 3, 9, (), False, 0, 2), ("wf3r", "wf", 3, 9, (), True, 0, 2),
                 ("dag3i", "dag", 3, 9, (), False, 0, 0, 1), ("wf3i", "wf", 3, 9, (), True, 0, 0, 1), ("wf4i", "wf", 4, 6, (), True, 0, 0, 1),
